@@ -23,6 +23,12 @@
 // held there, abstract ones included (coq/Gen/LockTableAcq.v): that is what
 // the gate-lock criterion of Proofs/LockTableGate.v is evaluated on.
 //
+// Round 6: lock BALANCE per function path (balance.go): for every function a
+// path-sensitive may-held analysis; at every return and explicit panic the
+// locks acquired in the function must have been released (or the function is a
+// hand-over declared in handover.json).  Output coq/Gen/LockTableBalance.v and
+// the "balance" section of the JSON side file.
+//
 // Approximations (all named in DESIGN.md, C05): locks and fields are identified
 // by (named struct type, field name), i.e. all instances of a type are
 // conflated; function values are resolved field-/parameter-based; code outside
